@@ -39,3 +39,7 @@ for fa in (0, 1):
 OBS.append(Ob(['C04', 'C06'], 'readonly_proxy', 'doc', 'harness/doc_hist.c', 'h_readonly_proxy', unwind=8, desc='nesting()/size()/isNull()/operator| on a proxy of a missing element: document unchanged, no allocator call', bound='all int32 values; index 3 of a 1-element array', **H))
 OBS.append(Ob(['C13'], 'copyarray_out', 'doc', 'harness/doc_hist.c', 'h_copyarray_out', unwind=8, desc='copyArray([a,b,c], int* dst, cap): returns min(cap,3), copies in order, guard elements untouched', bound='all int32 values, capacity 0..4', **H))
 OBS.append(Ob(['C13'], 'copyarray_str', 'doc', 'harness/doc_hist.c', 'h_copyarray_str', unwind=10, desc='copyArray(string value, char[4]): truncated, always NUL-terminated, guard bytes untouched', bound='all strings of 0..6 non-NUL bytes', **H))
+for bn in (0, 2, 3):
+    OBS.append(Ob(['C08', 'C07'], 'mp_bin_api_n%d' % bn, 'doc', 'harness/doc_ser.c', 'h_bin', defs=['BN=%d' % bn], unwind=10, desc='doc.set(MsgPackBinary(p,%d)); serializeMsgPack / as<MsgPackBinary>(): bin8 header, payload verbatim, read back identical' % bn, bound='all payload bytes', **dict(K3, hunwind=20)))
+    OBS.append(Ob(['C08'], 'mp_ext_api_n%d' % bn, 'doc', 'harness/doc_ser.c', 'h_ext', defs=['BN=%d' % bn], unwind=10, desc='doc.set(MsgPackExtension(type,p,%d)); serializeMsgPack: fixext / ext8 header, type byte, payload verbatim' % bn, bound='all type and payload bytes', **dict(K3, hunwind=20)))
+OBS.append(Ob(['C02'], 'ser_pretty', 'doc', 'harness/doc_ser.c', 'h_pretty', unwind=12, desc='serializeJsonPretty([i,["s"],[]], buf, cap) and measureJsonPretty: exact layout (CRLF, 2-space indentation, [] for empty), count/prefix/guard/NUL for every capacity', bound='i in -128..127, the string byte (all 256 values), capacity 0..length+2', **dict(K3, hunwind=76)))
